@@ -43,7 +43,7 @@ def harnesses(tier):
     return hs
 
 
-LEVEL = 'proof'
+LEVEL = 'other'   # 28 of 29 obligations fix the buffer length: bounded stand-in, not a proof
 
 
 def run(rep, tier):
